@@ -48,8 +48,8 @@ def run(harnesses, jobs=8, harness_timeout="10m", overall_timeout=3600, extra=()
             d = json.load(open(out_json))
         finally:
             os.unlink(out_json)
-        pd = {x["harness_id"]: x["property_details"] for x in d.get("property_details", [])}
-        cb = {x["harness_id"]: x.get("cbmc_stats", {}) for x in d.get("cbmc", [])}
+        pd = {x["harness_id"]: (x.get("property_details") or {}) for x in d.get("property_details", [])}
+        cb = {x["harness_id"]: (x.get("cbmc_stats") or {}) for x in d.get("cbmc", [])}
         for r in d["verification_results"]["results"]:
             h = r["harness_id"]
             checks = r.get("checks", [])
